@@ -218,6 +218,26 @@ ADDED3 = {
     "C20": " Round 6: a custom serializer hands out a narrowed number only under a read-back equality with its deserializer, which reads floats through their text; the ActionOperators registry key agrees with the creation.",
 }
 
+ADDED4 = {
+    "C01": " Round 8: the skip_default recursion hands down the accumulated dotted prefix and looks actions up under it; the splatted print_config flags may be read through a local alias.",
+    "C02": " Round 8: sub-types are asked for full support in the recursion of is_supported_typehint; TypedDict classes of both providers are mappings.",
+    "C03": " Round 8: a json decoder used outside json mode absorbs its own failure (R5); a constant index lies within the length its guard guarantees (R13).",
+    "C04": " Round 8: the tri-state env is resolved (None + default_env -> True) before it reaches the subcommand level.",
+    "C05": " Round 8: the default's class is the base of an init_args-only value under the right polarity of the sub_defaults flag (C05.j).",
+    "C06": " Round 8: a subcommand name that was given is checked against the choices whether or not a decision is asked for (F59).",
+    "C07": " Round 8: the whole-group loader is registered before the group's field actions in every style (C07.d); skip_default treats a key as a group for every style - no action, subcommand or whole-group loader (C07.f).",
+    "C09": " Round 8: the argument loop discards a pending request on ANY exception, unconditionally, and the request is detached from the parser before it is served (F60).",
+    "C10": " Round 8: a parameter merged into parse_object's running configuration passes the per-key checker before _parse_common.",
+    "C12": " Round 8: both spellings of an unevaluated annotation (str, ForwardRef) are evaluated (C12.g); facts derived from a parameter's annotation are computed after its last rewrite (C12.h).",
+    "C13": " Also: names and default expressions are aligned as Python aligns them, keyword-only parameters included (F56); a call through the class that passes the instance explicitly shifts the given positions (F58); the instance parameter's name is found when it is positional-only (F62).",
+    "C15": " Round 8: the creation check's conflict tables hold every target and every source of every parse-time link, and every new source is looked up (C15.g).",
+    "C16": " Round 8: a class argument's parser receives only the nested links whose target is that argument; every proper prefix of a target key is tried as a parent target.",
+    "C17": " Round 8: the completed section is stored before inner levels are handled; provisional parses of a sub-parser skip validation; a subcommand name found in the environment is stored on every path (C17.i, F61).",
+    "C18": " Round 8: the reference stored in the main file of a multi-file save is derived from the path the sub-file is written to (C18.e).",
+    "C19": " Round 8: the walk to the nearest existing ancestor is a loop (a single step is a violation); the 'already a path of this type' test is the library's Path or the registered class.",
+    "C20": " Round 8: the deserializer of an exact type returns what the constructor gives (no context-rounded arithmetic); a custom type_check decides membership in the class it is given (C20.c.iv, F57).",
+}
+
 
 def main():
     checks = []
@@ -231,6 +251,8 @@ def main():
             text = text + ADDED2[pid]
         if pid in ADDED3:
             text = text + ADDED3[pid]
+        if pid in ADDED4:
+            text = text + ADDED4[pid]
         checks.append(
             {
                 "property_id": pid,
